@@ -4,6 +4,7 @@
 package eff
 
 import (
+	"go/token"
 	"go/types"
 	"sort"
 	"strings"
@@ -112,10 +113,66 @@ func BuildGraph(p *core.Program) *Graph {
 			}
 		}
 	}
-	// dynTypes: the concrete types an interface value may hold, through conversions, phis and (to a depth of 3) parameters
+	// where each closure is created, to follow a captured variable back to what was captured
+	closureSites := map[*ssa.Function][]*ssa.MakeClosure{}
+	for _, fn := range g.funcs {
+		for _, b := range fn.Blocks {
+			for _, in := range b.Instrs {
+				if mc, ok := in.(*ssa.MakeClosure); ok {
+					if cf, ok := mc.Fn.(*ssa.Function); ok {
+						closureSites[cf] = append(closureSites[cf], mc)
+					}
+				}
+			}
+		}
+	}
+	// dynTypes: the concrete types an interface value may hold, through conversions, phis, captured variables and (to a depth
+	// of 3) parameters
 	var dynTypes func(v ssa.Value, depth int) []types.Type
 	dynTypes = func(v ssa.Value, depth int) []types.Type {
 		switch x := v.(type) {
+		case *ssa.UnOp:
+			// a load from a captured variable's cell or a local cell: what was stored there
+			if x.Op == token.MUL {
+				var out []types.Type
+				switch a := x.X.(type) {
+				case *ssa.FreeVar:
+					out = append(out, dynTypes(a, depth)...)
+				case *ssa.Alloc:
+					for _, ref := range *a.Referrers() {
+						if st, ok := ref.(*ssa.Store); ok && st.Addr == ssa.Value(a) {
+							out = append(out, dynTypes(st.Val, depth)...)
+						}
+					}
+				}
+				return out
+			}
+			return nil
+		case *ssa.Alloc:
+			var out []types.Type
+			for _, ref := range *x.Referrers() {
+				if st, ok := ref.(*ssa.Store); ok && st.Addr == ssa.Value(x) {
+					out = append(out, dynTypes(st.Val, depth)...)
+				}
+			}
+			return out
+		case *ssa.FreeVar:
+			if depth <= 0 || x.Parent() == nil {
+				return []types.Type{nil}
+			}
+			idx := -1
+			for i, fv := range x.Parent().FreeVars {
+				if fv == x {
+					idx = i
+				}
+			}
+			var out []types.Type
+			for _, mc := range closureSites[x.Parent()] {
+				if idx >= 0 && idx < len(mc.Bindings) {
+					out = append(out, dynTypes(mc.Bindings[idx], depth-1)...)
+				}
+			}
+			return out
 		case *ssa.MakeInterface:
 			return []types.Type{x.X.Type()}
 		case *ssa.ChangeInterface:
@@ -128,7 +185,7 @@ func BuildGraph(p *core.Program) *Graph {
 			return out
 		case *ssa.Parameter:
 			if depth <= 0 || x.Parent() == nil {
-				return nil
+				return []types.Type{nil}
 			}
 			idx := -1
 			for i, prm := range x.Parent().Params {
@@ -142,9 +199,12 @@ func BuildGraph(p *core.Program) *Graph {
 					out = append(out, dynTypes(c.Common().Args[idx], depth-1)...)
 				}
 			}
+			if len(out) == 0 {
+				return []types.Type{nil}
+			}
 			return out
 		}
-		return nil
+		return []types.Type{nil} // a source that cannot be followed: callers fall back to every implementer
 	}
 	var dynFuncs func(v ssa.Value, depth int) []*ssa.Function
 	dynFuncs = func(v ssa.Value, depth int) []*ssa.Function {
@@ -210,6 +270,21 @@ func BuildGraph(p *core.Program) *Graph {
 				case ssa.CallInstruction:
 					com := x.Common()
 					if com.IsInvoke() {
+						// the receiver's concrete types, when the value can be followed back to where it was boxed
+						if dts := dynTypes(com.Value, 3); len(dts) > 0 {
+							complete := true
+							for _, t := range dts {
+								if t == nil {
+									complete = false
+								}
+							}
+							if complete {
+								for _, t := range dts {
+									add(fn, methodOf(t, com.Method.Name()), in)
+								}
+								continue
+							}
+						}
 						iface, _ := types.Unalias(com.Value.Type()).Underlying().(*types.Interface)
 						if iface != nil {
 							for _, t := range repoTypes {
@@ -227,7 +302,9 @@ func BuildGraph(p *core.Program) *Graph {
 						if callee.Pkg != nil && strings.HasSuffix(callee.Pkg.Pkg.Path(), "gnark-lean-extractor/v2/abstractor") && strings.HasPrefix(callee.Name(), "Call") {
 							for _, a := range com.Args {
 								for _, t := range dynTypes(a, 3) {
-									add(fn, methodOf(t, "DefineGadget"), in)
+									if t != nil {
+										add(fn, methodOf(t, "DefineGadget"), in)
+									}
 								}
 							}
 						}
@@ -243,7 +320,9 @@ func BuildGraph(p *core.Program) *Graph {
 							if cb != "" {
 								for _, a := range com.Args {
 									for _, t := range dynTypes(a, 3) {
-										add(fn, methodOf(t, cb), in)
+										if t != nil {
+											add(fn, methodOf(t, cb), in)
+										}
 									}
 								}
 							}
@@ -256,7 +335,9 @@ func BuildGraph(p *core.Program) *Graph {
 								}
 								for _, a := range com.Args {
 									for _, t := range dynTypes(a, 3) {
-										add(fn, methodOf(t, cb), in)
+										if t != nil {
+											add(fn, methodOf(t, cb), in)
+										}
 									}
 								}
 							}
